@@ -13,6 +13,8 @@ CONSTANTS
   MaxTx = 3
   SupplyCap = 8
   DataVals = {7}
+  ConsArgs <- ConsNone
+  ConArgs <- ConsNone
   InitLedgers <- InitNU
 VIEW View
 INVARIANTS TypeOK SupplyMatches InTxSupply NonNegative CommittedIsPre InTxConservation NoEmptyWorktopBucket
